@@ -18,6 +18,8 @@ CONSTANTS Threads, MaxId, SerialMod, NAlloc, StartId, StartSerial, LockEnforced,
           RefThreads, NRef, StartCtr,
           Creations,         \* creation values the environment may put in force (PidAllocator::set_creation; they recur: EPMD hands out 1, 2, 3, 1, ...)
           MaxSet,            \* bound on the number of set_creation calls
+          GivesBackOnFailure, \* deviation (FALSE in the code): an operation that made a reference and then fails (Node::monitor on a connection that
+                              \* is not connected) moves the counter back by the three words it drew
           CreationRewinds    \* deviation (FALSE in the code): set_creation also restarts the numbering at <<1, 0>>
 VARIABLES nextId, nextSerial, creation, lock, pc, lid, lser, left, issued,
           ctr, rpc, rwords, rleft, rissued,
@@ -68,12 +70,16 @@ RefWord(t) == /\ rpc[t] < 3 /\ (rpc[t] > 0 \/ rleft[t] > 0)
               /\ rpc' = [rpc EXCEPT ![t] = @ + 1]
               /\ rleft' = IF rpc[t] = 0 THEN [rleft EXCEPT ![t] = @ - 1] ELSE rleft
               /\ UNCHANGED <<rissued, pvars>>
+\* the reference was made for an operation that fails afterwards: nobody keeps it, and (deviation) its words are handed back
+RefFail(t) == /\ GivesBackOnFailure /\ rpc[t] = 3 /\ ctr' = ctr - 3
+              /\ rpc' = [rpc EXCEPT ![t] = 0] /\ rwords' = [rwords EXCEPT ![t] = <<>>]
+              /\ UNCHANGED <<rissued, rleft, pvars>>
 RefReturn(t) == /\ rpc[t] = 3 /\ rissued' = Append(rissued, rwords[t])
                 /\ rpc' = [rpc EXCEPT ![t] = 0] /\ rwords' = [rwords EXCEPT ![t] = <<>>]
                 /\ UNCHANGED <<ctr, rleft, pvars>>
 PStep(t) == Call(t) \/ Acquire(t) \/ LoadId(t) \/ LoadSer(t) \/ StoreOne(t) \/ FetchAdd(t) \/ StoreNext(t) \/ Return(t)
 PNext == (\E t \in Threads : PStep(t)) /\ UNCHANGED <<origin, nset, epoch>>
-RNext == (\E t \in RefThreads : RefWord(t) \/ RefReturn(t)) /\ UNCHANGED <<origin, nset, epoch>>
+RNext == (\E t \in RefThreads : RefWord(t) \/ RefReturn(t) \/ RefFail(t)) /\ UNCHANGED <<origin, nset, epoch>>
 Next == PNext \/ RNext \/ (\E c \in Creations : SetCreation(c))
 Spec == Init /\ [][Next]_vars
 \* ---- C16
